@@ -48,3 +48,20 @@ pub fn f12(k: u32) -> u32 {
     let s = if k == 0 { Shape::Dot } else if k == 1 { Shape::Circle { r: 2 } } else { Shape::Rect { w: 2, h: 5 } };
     match s { Shape::Dot => 0, Shape::Circle { r } => r * r, Shape::Rect { w, h } => w * h }
 }
+pub fn f13(v: Vec<u32>) -> Vec<u32> {
+    // iterator state: find consumes, clone copies the cursor
+    let mut rest = v.iter();
+    let mut out = Vec::new();
+    for want in [2u32, 1u32] {
+        let mut look = rest.clone();
+        if let Some(x) = look.find(|y| **y == want) { out.push(*x); rest = look; }
+    }
+    out.push(rest.count() as u32);
+    out
+}
+pub fn f14(v: Vec<Option<u32>>) -> Vec<u32> { v.iter().map_while(|x| *x).collect() }
+pub fn f15() -> Vec<u32> {
+    let mut m: BTreeMap<Option<usize>, u32> = BTreeMap::new();
+    m.insert(Some(1), 10); m.insert(None, 5); m.insert(Some(1), 11); m.insert(Some(0), 7);
+    m.into_values().collect()
+}
